@@ -61,6 +61,8 @@ def configure(path):
 
 
 def rel(path):
+    if WATCH is None:  # wrappers installed but no run configured yet (zygote importing the package): pass through
+        return None
     try:
         p = os.path.realpath(os.fspath(path))
     except TypeError:
@@ -276,7 +278,9 @@ def serve():
     import logging
 
     logging.disable(logging.CRITICAL)
-    # import what the steps import, once (no wrapper is installed in the zygote itself)
+    # the wrappers go in BEFORE the package is imported (pass-through until a run is configured), so that a module
+    # binding `from os import rename` or `open` at import time binds the wrapper as well
+    install()
     from picked_group_fdr.pipeline import update_evidence_from_pout, andromeda2pin, pipeline  # noqa: F401
     from picked_group_fdr.digestion_params import DigestionParams  # noqa: F401
 
